@@ -7,6 +7,10 @@
 //!   `T <portable> <names> <arg>*` / `H <names> <argv0> <arg>*` / `K <portable> <sigterm> <names> <arg>*`
 //!       the bespoke parsers set/syntax.rs, yash-cli startup/args.rs, kill/syntax.rs called directly; <names> = the
 //!       answers of yash_env::option / Signals::str2sig the parser can ask for on this vector (a parameter of the model)
+//!   `B <portable> <cmd> <setup> <probe> <arg>* ( | <arg>* )*`  hand-written equivalent spellings of an invocation of a built-in with a
+//!       bespoke parser (set, kill, typeset +x, pwd, true …), shell level only (oracle: identical stdout/status/stderr-emptiness/probe)
+//!   `E <portable> <cmd> <setup> <probe> <arg>*`  an invocation the built-in must reject (syntax or operand error): diagnostic,
+//!       non-zero status, nothing on stdout, state probe unchanged
 //!   `G <optstring> <arg>*`                        `while getopts optstring v arg…` run to the end in a virtual shell
 //!
 //! Observation of `P`: options (spec, spelling, argument) + operands, or the error class with the
@@ -1075,11 +1079,11 @@ const T_TOKENS: [&str; 40] = [
     "portable", "--portable", "-oportable", "--no", "--e", "-C", "nounset", "+C", "", "-e-", "++", "-oErr-Exit", "-n",
 ];
 const H_ARG0: [&str; 4] = ["yash", "-yash", "/bin/sh", "sh"];
-const H_TOKENS: [&str; 46] = [
+const H_TOKENS: [&str; 50] = [
     "-c", "-s", "-cs", "-i", "-e", "-ec", "+e", "-V", "-eV", "+V", "-o", "errexit", "-oerrexit", "--errexit", "++errexit",
     "--profile", "--profile=p", "--pro", "--rcfile=r", "--norcfile", "--noprofile", "--nopro", "--help", "--version",
     "--ver", "--help=x", "++help", "--", "-", "cmd", "script", "--portable", "-oportable", "-ce", "+c", "--no", "--n",
-    "--posixlycorrect", "-l", "--login", "-Z", "--zz", "+s", "-eo", "--r", "",
+    "--posixlycorrect", "-l", "--login", "-Z", "--zz", "+s", "-eo", "--r", "", "-oErr-Exit", "err-exit", "--interactive", "--cmdline",
 ];
 const K_TOKENS: [&str; 38] = [
     "-s", "-n", "-l", "-v", "-lv", "INT", "TERM", "int", "SIGINT", "sigint", "9", "0", "-9", "-INT", "-int", "-SIGINT",
@@ -1168,6 +1172,262 @@ fn bespoke_cases(e: &mut Emitter, rng: &mut Rng, thorough: bool) {
     }
 }
 
+// ------------------------------------------------------------------------------------------
+// `B` / `E`: shell-level legs for the built-ins whose syntax.rs does more than `parse_arguments`
+
+/// like `shell::run_script`, with executable `/bin/{true,false,pwd}` and `PATH=/bin` so that the
+/// substitutive built-ins can be used
+fn run_script_bins(script: &str) -> shell::Outcome {
+    use yash_env::system::r#virtual::{FileBody, Inode};
+    use yash_env::variable::Scope;
+    shell::run_with(
+        shell::Config::new(script),
+        |env, state| {
+            for n in ["true", "false", "pwd"] {
+                let inode = Inode {
+                    body: FileBody::new(Vec::<u8>::new()),
+                    permissions: yash_env::system::Mode::from_bits_truncate(0o755),
+                };
+                let _ = state
+                    .borrow_mut()
+                    .file_system
+                    .save(&format!("/bin/{n}"), std::rc::Rc::new(std::cell::RefCell::new(inode)));
+            }
+            let _ = env.variables.get_or_new("PATH", Scope::Global).assign("/bin", None);
+        },
+        |_, _| (),
+    )
+    .0
+}
+
+fn run_invocation_b(setup: &str, cmd: &str, args: Option<&[String]>, probe: &str, portable: bool) -> ShellObs {
+    let mut script = String::new();
+    script.push_str(setup);
+    script.push('\n');
+    if portable {
+        script.push_str("set -o portable\n");
+    }
+    if let Some(args) = args {
+        script.push_str(cmd);
+        for a in args {
+            script.push(' ');
+            script.push_str(&sh_quote(a));
+        }
+        script.push('\n');
+    } else {
+        script.push_str("st 0\n");
+    }
+    script.push_str("echo \"@@status=$?\"\nset +o portable\n");
+    script.push_str(probe);
+    script.push('\n');
+    let o = run_script_bins(&script);
+    let out = o.stdout_str();
+    let (before, after) = match out.split_once("@@status=") {
+        Some((b, a)) => (b.to_string(), a.to_string()),
+        None => (out.clone(), format!("exit{}\n", o.exit_status)),
+    };
+    let (status, probe_out) =
+        after.split_once('\n').map(|(a, b)| (a.to_string(), b.to_string())).unwrap_or((after.clone(), String::new()));
+    ShellObs {
+        stdout: before,
+        status: if o.stuck { "STUCK".into() } else { status },
+        stderr_empty: o.stderr.is_empty(),
+        probe: probe_out,
+    }
+}
+
+fn run_b(w: &[&str]) -> (String, String) {
+    let bad = || ("bad-case".to_string(), "-".to_string());
+    if w.len() < 5 {
+        return bad();
+    }
+    let portable = w[1] == "1";
+    let (Some(cmd), Some(setup), Some(probe)) = (dec_str(w[2]), dec_str(w[3]), dec_str(w[4])) else { return bad() };
+    let mut spellings: Vec<Vec<String>> = vec![];
+    for sp in split_bar(&w[5..]) {
+        match sp.iter().map(|a| dec_str(a)).collect::<Option<Vec<String>>>() {
+            Some(v) => spellings.push(v),
+            None => return bad(),
+        }
+    }
+    let obs = format!("n={}", spellings.len());
+    let oracle = guarded(|| {
+        let first = run_invocation_b(&setup, &cmd, Some(&spellings[0]), &probe, portable);
+        if !first.stderr_empty {
+            return format!("FAIL:valid invocation {:?} printed a diagnostic (status {})", spellings[0], first.status);
+        }
+        for sp in &spellings[1..] {
+            let o = run_invocation_b(&setup, &cmd, Some(sp), &probe, portable);
+            if o.stdout != first.stdout || o.status != first.status || o.stderr_empty != first.stderr_empty || o.probe != first.probe {
+                return format!(
+                    "FAIL:spelling {:?} differs from {:?}: status {} vs {}, stdout {} vs {}, stderr-empty {} vs {}, probe {} vs {}",
+                    sp, spellings[0], o.status, first.status, enc_str(&o.stdout), enc_str(&first.stdout),
+                    o.stderr_empty, first.stderr_empty, enc_str(&o.probe), enc_str(&first.probe)
+                );
+            }
+        }
+        "ok".into()
+    });
+    (obs, oracle)
+}
+
+fn run_e(w: &[&str]) -> (String, String) {
+    let bad = || ("bad-case".to_string(), "-".to_string());
+    if w.len() < 5 {
+        return bad();
+    }
+    let portable = w[1] == "1";
+    let (Some(cmd), Some(setup), Some(probe)) = (dec_str(w[2]), dec_str(w[3]), dec_str(w[4])) else { return bad() };
+    let Some(args) = w[5..].iter().map(|a| dec_str(a)).collect::<Option<Vec<String>>>() else { return bad() };
+    // `!cmd`: the built-in only warns (no_arg.rs): a diagnostic is required, a non-zero status is not
+    let warning_only = cmd.starts_with('!');
+    let cmd = cmd.trim_start_matches('!').to_string();
+    let oracle = guarded(|| {
+        let o = run_invocation_b(&setup, &cmd, Some(&args), &probe, portable);
+        let reference = run_invocation_b(&setup, &cmd, None, &probe, portable);
+        if o.stderr_empty {
+            return "FAIL:no diagnostic".into();
+        }
+        if o.status == "0" && !warning_only {
+            return "FAIL:zero exit status".into();
+        }
+        if !o.stdout.is_empty() {
+            return format!("FAIL:output {}", enc_str(&o.stdout));
+        }
+        if o.probe != reference.probe {
+            return format!("FAIL:state changed: {} vs {}", enc_str(&o.probe), enc_str(&reference.probe));
+        }
+        "ok".into()
+    });
+    ("n=1".into(), oracle)
+}
+
+const STATE: &str = "echo \"$-|$*|${x-unset}|${y-unset}|$PWD\"; set +o; trap -p INT TERM; umask; alias";
+
+/// (portable, cmd, setup, probe, spellings)
+fn bespoke_spellings() -> Vec<(bool, &'static str, &'static str, &'static str, Vec<Vec<&'static str>>)> {
+    let k = "k() { kill \"$@\" $$; }";
+    vec![
+        (false, "set", "", STATE, vec![vec!["-e", "-u"], vec!["-eu"], vec!["-ue"], vec!["-o", "errexit", "-o", "nounset"], vec!["-oerrexit", "-u"],
+            vec!["--errexit", "--nounset"], vec!["-eo", "nounset"], vec!["--err-exit", "-o", "no_unset"], vec!["-e", "+o", "unset"], vec!["-e", "++unset"]]),
+        (false, "set", "set -e -C", STATE, vec![vec!["+e", "+C"], vec!["+eC"], vec!["+o", "errexit", "-o", "clobber"], vec!["++errexit", "--clobber"], vec!["+oerrexit", "+onoclobber"], vec!["+e", "++noclobber"]]),
+        (false, "set", "", STATE, vec![vec!["-C", "--", "a", "-b"], vec!["-o", "noclobber", "--", "a", "-b"], vec!["--noclobber", "-", "a", "-b"], vec!["-C", "-", "a", "-b"], vec!["++clobber", "--", "a", "-b"]]),
+        (false, "set", "set -- p q", STATE, vec![vec!["--"], vec!["-"]]),
+        (false, "set", "set -- p q", STATE, vec![vec!["a", "b"], vec!["--", "a", "b"], vec!["-", "a", "b"]]),
+        (false, "set", "", STATE, vec![vec!["-a", "-b", "-f", "-h", "-n"], vec!["-abfhn"], vec!["--allexport", "--notify", "--noglob", "--hashondefinition", "--noexec"]]),
+        (false, "set", "", STATE, vec![vec!["-m", "-C", "-u"], vec!["-mCu"], vec!["-o", "monitor", "-o", "noclobber", "-o", "nounset"]]),
+        (false, "set", "", STATE, vec![vec!["-o", "vi", "-o", "ignoreeof", "-o", "pipefail", "-o", "posixlycorrect", "-o", "nolog"], vec!["--vi", "--ignoreeof", "--pipefail", "--posixly-correct", "++log"]]),
+        (false, "set", "", "", vec![vec!["-o"]]),
+        (false, "set", "", "", vec![vec!["+o"]]),
+        (true, "set", "", STATE, vec![vec!["-e", "-u"], vec!["-eu"], vec!["-o", "errexit", "-o", "nounset"]]),
+        (false, "k", k, STATE, vec![vec!["-s", "0"], vec!["-s0"], vec!["-n", "0"], vec!["-n0"], vec!["-0"], vec!["-s", "0", "--"], vec!["-0", "--"]]),
+        (false, "k", "k() { kill \"$@\" $$; }; trap 'echo got' USR1", STATE, vec![vec!["-s", "USR1"], vec!["-sUSR1"], vec!["-USR1"], vec!["-s", "usr1"], vec!["-sSIGUSR1"],
+            vec!["-SIGUSR1"], vec!["-sigusr1"], vec!["-n", "USR1"], vec!["-s", "SigUsr1"]]),
+        (false, "kill", "", STATE, vec![vec!["-l"], vec!["-l", "--"]]),
+        (false, "kill", "", STATE, vec![vec!["-l", "9", "INT"], vec!["-l", "--", "9", "INT"]]),
+        (false, "kill", "", STATE, vec![vec!["-l", "-v", "9"], vec!["-lv", "9"], vec!["-vl", "9"], vec!["-v", "9"], vec!["-v", "--", "9"]]),
+        (true, "k", k, STATE, vec![vec!["-s", "0"], vec!["-0"]]),
+        (true, "kill", "", STATE, vec![vec!["-l", "9"], vec!["-l", "--", "9"]]),
+        (false, "typeset", "x=1; export y=2", "typeset -p x y", vec![vec!["-x", "x"], vec!["--export", "x"], vec!["-x", "--", "x"]]),
+        (false, "typeset", "x=1; export y=2", "typeset -p x y", vec![vec!["+x", "y"], vec!["++export", "y"], vec!["-X", "y"], vec!["--unexport", "y"], vec!["+x", "--", "y"]]),
+        (false, "typeset", "x=1; export y=2", "typeset -p x y", vec![vec!["-g", "+x", "y", "x"], vec!["-g", "++export", "y", "x"], vec!["--global", "-X", "y", "x"]]),
+        (false, "pwd", "", STATE, vec![vec!["-L"], vec!["--logical"], vec!["--log"], vec!["-L", "--"]]),
+        (false, "pwd", "", STATE, vec![vec!["-P"], vec!["--physical"], vec!["-LP"], vec!["-L", "-P"]]),
+        (false, "true", "", STATE, vec![vec![], vec!["x"], vec!["--", "-x"]]),
+        (false, "false", "", STATE, vec![vec![], vec!["x"]]),
+        (false, "trap", "trap 'echo x' INT", "trap -p", vec![vec!["-", "INT", "0"], vec!["--", "-", "INT", "EXIT"], vec!["-", "2", "EXIT"]]),
+        (false, "trap", "trap 'echo x' INT", "", vec![vec!["-p"], vec!["--print"], vec!["-p", "--"]]),
+        (false, "trap", "trap 'echo x' INT", "", vec![vec![], vec!["--"]]),
+        (false, "cd", "", STATE, vec![vec!["-P", "-e", "/"], vec!["-Pe", "/"], vec!["--physical", "--ensure-pwd", "/"]]),
+        (false, "command", "", STATE, vec![vec!["-v", "echo"], vec!["--identify", "echo"]]),
+        (false, "read", "exec <<'EOF'\nab\tc\nEOF", "echo \"[$v]\"", vec![vec!["-d", "\t", "v"], vec!["-d\t", "v"], vec!["--delimiter=\t", "v"]]),
+        (false, "ulimit", "ulimit -S -n 100", STATE, vec![vec!["-H", "-n", "200"], vec!["-Hn", "200"], vec!["--hard", "--nofile", "200"]]),
+        (false, "ulimit", "", STATE, vec![vec!["100"], vec!["-f", "100"], vec!["--fsize", "100"], vec!["--", "100"]]),
+        (false, "ulimit", "", STATE, vec![vec!["-S", "-c", "unlimited"], vec!["-Sc", "unlimited"]]),
+        (true, "ulimit", "", STATE, vec![vec!["-H", "-n"], vec!["-H", "-H", "-n"]]),
+        (false, "wait", "", STATE, vec![vec!["9999"], vec!["--", "9999"]]),
+        (false, "wait", "", STATE, vec![vec!["%1"], vec!["--", "%1"]]),
+        (false, "getopts", "", "echo \"$v|${OPTARG-unset}|$OPTIND\"", vec![vec!["ab", "v", "-a"], vec!["--", "ab", "v", "-a"]]),
+        (false, "eval", "getopts ab v -a -b; OPTIND=1;", "echo \"$v|$OPTIND\"", vec![vec!["getopts", "ab", "v", "-b"], vec!["getopts", "--", "ab", "v", "-b"]]),
+    ]
+}
+
+/// (portable, cmd, setup, probe, args): invocations that must be rejected
+fn bespoke_rejections() -> Vec<(bool, &'static str, &'static str, &'static str, Vec<&'static str>)> {
+    let st = STATE;
+    vec![
+        (false, "command set", "", st, vec!["-Z"]), (false, "command set", "", st, vec!["-eZ"]), (false, "command set", "", st, vec!["--nosuchoption"]),
+        (false, "command set", "", st, vec!["-e", "-o"]), (false, "command set", "", st, vec!["-o", "nosuch"]), (false, "command set", "", st, vec!["--e"]),
+        (false, "command set", "", st, vec!["-i"]), (false, "command set", "", st, vec!["--interactive"]), (false, "command set", "", st, vec!["-o", "stdin"]),
+        (false, "command set", "", st, vec!["+c"]), (false, "command set", "", st, vec!["-e", "--no"]),
+        (true, "command set", "", st, vec!["--errexit"]), (true, "command set", "", st, vec!["-oerrexit"]), (true, "command set", "", st, vec!["-o", "err-exit"]),
+        (true, "command set", "", st, vec!["-l"]), (true, "command set", "", st, vec!["-o", "unset"]), (true, "command set", "", st, vec!["++errexit"]),
+        (true, "command set", "", st, vec!["-o", "posixlycorrect"]), (true, "command set", "", st, vec!["-e", "-onounset"]),
+        (false, "kill", "", st, vec![]), (false, "kill", "", st, vec!["-s"]), (false, "kill", "", st, vec!["-n"]), (false, "kill", "", st, vec!["-s", "INT", "-l"]),
+        (false, "kill", "", st, vec!["-s", "INT", "-v"]), (false, "kill", "", st, vec!["-x", "1"]), (false, "kill", "", st, vec!["-s", "INT", "-s", "TERM", "1"]),
+        (false, "kill", "", st, vec!["-INT", "-TERM", "1"]), (false, "kill", "", st, vec!["-s", "NOSUCH", "1"]), (false, "kill", "", st, vec!["-sNOSUCH", "1"]),
+        (false, "kill", "", st, vec!["-INT"]), (false, "kill", "", st, vec!["--"]),
+        (true, "kill", "", st, vec!["-n", "9", "1"]), (true, "kill", "", st, vec!["-v"]), (true, "kill", "", st, vec!["-s", "9", "1"]), (true, "kill", "", st, vec!["-s9", "1"]),
+        (true, "kill", "", st, vec!["-sINT", "1"]), (true, "kill", "", st, vec!["-s", "SIGINT", "1"]), (true, "kill", "", st, vec!["-sSIGINT", "1"]),
+        (true, "kill", "", st, vec!["-SIGINT", "1"]), (true, "kill", "", st, vec!["-sigstop", "1"]), (true, "kill", "", st, vec!["-l", "INT"]),
+        (true, "kill", "", st, vec!["-l", "9", "10"]), (true, "kill", "", st, vec!["-s", "-5", "1"]),
+        (false, "cd", "", st, vec!["-e", "/"]), (false, "cd", "", st, vec![""]), (false, "cd", "", st, vec!["/", "/"]), (false, "cd", "", st, vec!["-L", "-e", "/"]),
+        (true, "command", "", st, vec!["-v", "-V", "echo"]), (true, "command", "", st, vec!["-V", "-v", "echo"]), (true, "command", "", st, vec!["-v"]), (true, "command", "", st, vec![]),
+        (true, "command", "", st, vec!["-v", "echo", "cd"]), (true, "command", "", st, vec!["-V", "echo", "cd"]),
+        (false, "read", "", st, vec![]), (false, "read", "", st, vec!["-r"]), (false, "read", "", st, vec!["-d", "ab", "v"]), (false, "read", "", st, vec!["-d", "é", "v"]),
+        (false, "read", "", st, vec!["a=b"]), (false, "read", "", st, vec!["v", "a=b"]), (true, "read", "", st, vec!["é"]), (true, "read", "", st, vec!["-d:", "v"]),
+        (false, "command trap", "", st, vec!["", "NOSUCH"]), (false, "command trap", "", st, vec!["echo", "INT", "NOSUCH"]), (false, "command trap", "", st, vec!["-p", "NOSUCH"]),
+        (false, "command trap", "", st, vec!["echo"]), (false, "command trap", "", st, vec!["-", "99999"]),
+        (false, "typeset", "", st, vec!["+p"]), (false, "typeset", "", st, vec!["++print"]), (false, "typeset", "", st, vec!["+f"]), (false, "typeset", "", st, vec!["-f", "-x", "f"]),
+        (false, "typeset", "", st, vec!["-f", "-g", "f"]), (true, "typeset", "", st, vec![]), (true, "typeset", "", st, vec!["-p", "x"]), (true, "command export", "", st, vec![]), (false, "typeset", "", st, vec!["-Z"]), (false, "typeset", "", st, vec!["--nosuch"]), (false, "typeset", "", st, vec!["--p=1"]),
+        (false, "typeset", "", st, vec!["-r", "+r", "x"]), (true, "typeset", "", st, vec!["--print"]),
+        (false, "command export", "", st, vec!["-p", "x=1"]), (false, "command readonly", "", st, vec!["-Z"]),
+        (false, "ulimit", "", st, vec!["-a", "1"]), (false, "ulimit", "", st, vec!["-H", "-S", "-n"]), (false, "ulimit", "", st, vec!["-n", "-c"]), (false, "ulimit", "", st, vec!["-n", "1", "2"]),
+        (false, "ulimit", "", st, vec!["-n", "x"]), (false, "ulimit", "", st, vec!["-n", "-1"]), (false, "ulimit", "", st, vec!["-Z"]),
+        (true, "ulimit", "", st, vec!["-Hn"]), (true, "ulimit", "", st, vec!["-n", "-n"]), (true, "ulimit", "", st, vec!["-k"]), (true, "ulimit", "", st, vec!["--nofile"]),
+        (true, "ulimit", "", st, vec!["-H", "-S", "-n"]),
+        (false, "wait", "", st, vec!["x"]), (false, "wait", "", st, vec!["-1"]), (false, "wait", "", st, vec!["1", "x"]), (false, "wait", "", st, vec!["-Z"]),
+        (false, "getopts", "", st, vec!["ab"]), (false, "getopts", "", st, vec![]), (false, "getopts", "", st, vec!["ab", "v=x", "-a"]), (false, "getopts", "OPTIND=5", st, vec!["ab", "v", "-a"]),
+        (false, "getopts", "", st, vec!["-Z", "ab", "v"]), (true, "getopts", "", st, vec!["ab", "é", "-a"]),
+        (false, "eval", "getopts ab v -a -b;", st, vec!["getopts", "ab", "v", "-b"]),
+        (false, "umask", "", st, vec!["-S", "a", "b"]), (false, "umask", "", st, vec!["-Z"]), (false, "umask", "", st, vec!["999"]),
+        (false, "unalias", "", st, vec![]), (false, "unalias", "", st, vec!["-a", "x"]), (false, "command unset", "", st, vec!["-f", "-v", "x"]),
+        (false, "pwd", "", st, vec!["x"]), (false, "pwd", "", st, vec!["-Z"]), (false, "jobs", "", st, vec!["-Z"]), (false, "command shift", "", st, vec!["x"]),
+        (false, "command shift", "", st, vec!["1", "2"]), (false, "command exit", "", st, vec!["x"]),
+        (false, "cd", "", st, vec!["--nosuch=1", "/"]), (false, "wait", "", st, vec!["--", "-1"]), (true, "command", "", st, vec!["-v", "-V", "-p", "echo"]),
+        (true, "command export", "x=1", st, vec!["-p", "x"]), (true, "command export", "", st, vec!["--print"]), (true, "command readonly", "", st, vec![]),
+        (true, "command set", "", st, vec!["--portable"]), (true, "command set", "", st, vec!["++portable"]), (true, "command set", "", st, vec!["--hashondefinition"]),
+        (true, "command set", "", st, vec!["-o", "hash-on-definition"]),
+        // warnings (status unchanged): marked by the `!` in front of the command
+        (true, "!true", "", st, vec!["x"]), (true, "!false", "", st, vec!["x"]),
+    ]
+}
+
+fn bespoke_shell_cases(e: &mut Emitter) {
+    let hx = |s: &str| enc_str(s);
+    for (portable, cmd, setup, probe, spellings) in bespoke_spellings() {
+        let mut line = format!("B {} {} {} {}", portable as u8, hx(cmd), hx(setup), hx(probe));
+        for (k, sp) in spellings.iter().enumerate() {
+            if k > 0 {
+                line.push_str(" |");
+            }
+            for a in sp {
+                line.push(' ');
+                line.push_str(&hx(a));
+            }
+        }
+        e.case(&line);
+    }
+    for (portable, cmd, setup, probe, args) in bespoke_rejections() {
+        let mut line = format!("E {} {} {} {}", portable as u8, hx(cmd), hx(setup), hx(probe));
+        for a in &args {
+            line.push(' ');
+            line.push_str(&hx(a));
+        }
+        e.case(&line);
+    }
+}
+
 fn run_case(case: &str) -> (String, String) {
     let w: Vec<&str> = case.split_whitespace().collect();
     match w.first() {
@@ -1175,6 +1435,8 @@ fn run_case(case: &str) -> (String, String) {
         Some(&"S") => run_s(&w),
         Some(&"M") => run_m(&w),
         Some(&"G") => run_g(&w),
+        Some(&"B") => run_b(&w),
+        Some(&"E") => run_e(&w),
         Some(&"T") => run_t(&w),
         Some(&"H") => run_h(&w),
         Some(&"K") => run_k(&w),
@@ -1814,6 +2076,7 @@ fn main() {
     getopts_cases(&mut e, &mut rng, thorough);
 
     // (iv) the bespoke parsers: set, the shell's command line, kill
+    bespoke_shell_cases(&mut e);
     bespoke_cases(&mut e, &mut rng, thorough);
 
     // (i) exhaustive: small tables x all vectors over the token set
